@@ -94,7 +94,7 @@ CHECKS = {
             "with random qubit maps, phasors and sum-exponentials (as products of rotation factors) are compared with matrices.",
             "Direction of conjugation pinned by the docstring examples; observable-measurement utilities (cirq.work) not covered.",
             "DESIGN.md 5/C14"),
-    "C19": ("translation_validation", "runtime monitor on every QASM export entry point + independent OpenQASM reader executing the emitted text",
+    "C19": ("exploration", "runtime monitor on every QASM export entry point + independent OpenQASM reader executing the emitted text",
             "The text Cirq emits (to_qasm, cirq.qasm, QasmOutput str/save, save_qasm; versions 2.0 and 3.0, all qubit orders, "
             "precisions 3-15) is parsed by an independent reader whose gate semantics are qelib1.inc transcribed literally as "
             "macros over U and CX (stdgates table for 3.0) and executed by its own branching simulator; unitary programs are "
